@@ -203,6 +203,12 @@ func pkgRole(path, name string) role {
 		if name == "Address" {
 			return roleNone
 		}
+	case strings.HasSuffix(path, "hcl-lang/decoder"):
+		// the outline: a finite tree built from the syntax tree
+		switch name {
+		case "Symbol", "BlockSymbol", "AttributeSymbol", "ExprSymbol":
+			return roleOTHER
+		}
 	}
 	return roleNone
 }
@@ -243,7 +249,7 @@ func nativePkg(path string, r role) bool {
 	case roleCONS:
 		return strings.HasSuffix(path, "hcl-lang/schema") || strings.HasSuffix(path, "go-cty/cty")
 	case roleOTHER:
-		return strings.HasSuffix(path, "hcl-lang/reference") || strings.HasSuffix(path, "go-cty/cty")
+		return strings.HasSuffix(path, "hcl-lang/reference") || strings.HasSuffix(path, "go-cty/cty") || strings.HasSuffix(path, "hcl-lang/decoder")
 	}
 	return false
 }
@@ -708,6 +714,11 @@ func (d *deriver) derive0(e ast.Expr, depth int) []datom {
 			if sameMethods[name] {
 				return d.derive(x.Args[0], depth+1)
 			}
+		}
+		// a method of a module interface every implementation of which just returns a field of
+		// its receiver (a getter): a projection of the receiver
+		if isMethod && hasSel && f != nil && len(x.Args) == 0 && d.interfaceGetter(f) {
+			return mapAtoms(d.derive(sel.X, depth+1), seg{kind: segProj, name: name, pkg: pkg})
 		}
 		// a module function with a body: substitute the actuals into the atoms of what it returns
 		if f != nil {
@@ -2383,4 +2394,50 @@ func (d *deriver) closureParam(fn *Func, o types.Object, depth int) ([]datom, bo
 		return out, true
 	}
 	return nil, false
+}
+
+// interfaceGetter: f is a method of an interface declared in the module, at least one type
+// of the module implements it, and every such implementation's body is `return recv.<field>`.
+func (d *deriver) interfaceGetter(f *types.Func) bool {
+	sig, ok := f.Type().(*types.Signature)
+	if !ok || sig.Recv() == nil || f.Pkg() == nil || !strings.HasPrefix(f.Pkg().Path(), modPath) {
+		return false
+	}
+	iface, ok := sig.Recv().Type().Underlying().(*types.Interface)
+	if !ok {
+		return false
+	}
+	n := 0
+	for _, g := range d.p.Funcs {
+		if g.Decl == nil || g.Decl.Recv == nil || g.Obj == nil || g.Obj.Name() != f.Name() || g.Body == nil {
+			continue
+		}
+		gs := g.Obj.Type().(*types.Signature)
+		if gs.Recv() == nil {
+			continue
+		}
+		rt := gs.Recv().Type()
+		if !types.Implements(rt, iface) {
+			if _, isPtr := rt.(*types.Pointer); isPtr || !types.Implements(types.NewPointer(rt), iface) {
+				continue
+			}
+		}
+		n++
+		if len(g.Body.List) != 1 || len(g.Decl.Recv.List) != 1 || len(g.Decl.Recv.List[0].Names) != 1 {
+			return false
+		}
+		ret, ok := g.Body.List[0].(*ast.ReturnStmt)
+		if !ok || len(ret.Results) != 1 {
+			return false
+		}
+		sel, ok := ast.Unparen(ret.Results[0]).(*ast.SelectorExpr)
+		if !ok {
+			return false
+		}
+		id, ok := ast.Unparen(sel.X).(*ast.Ident)
+		if !ok || g.Info().ObjectOf(id) != g.Info().ObjectOf(g.Decl.Recv.List[0].Names[0]) {
+			return false
+		}
+	}
+	return n > 0
 }
